@@ -14,7 +14,7 @@ STREAMS = ["Output", "Log", "Error", "Dump"]
 
 
 def gen_call(rng, uns, first):
-    text, info = gen_inputs.multi_sim_input(rng, user_numbers=uns if first else [], nsims=rng.randint(1, 3), rich=rng.random() < 0.4)
+    text, info = gen_inputs.multi_sim_input(rng, user_numbers=uns if first else [], nsims=rng.randint(1, 3), rich=rng.random() < 0.4, print_toggle=first, newline_variants=True)
     k = rng.random()
     extra = ""
     if k < 0.25:
